@@ -6,6 +6,11 @@ Case (JSON-able):
   base      machine_context argument: list of ['lock', id] | ['user', id]   ([] = library default)
   extras    per model index: model_context list (same encoding)
   nmodels   number of models that receive events; two more "spare" models exist for remove_model
+  dyn       list of model_context lists: "dynamic" models (numbered nmodels+j), registered initially with
+            that context; each is used by ONE thread only, through top-level calls
+            dyn_ev [j, name] | dyn_add [j, ctxs] | dyn_remove [j]; a dyn_ev issued while the model is not
+            registered carries 'unjudged': it is executed silently (outside the statement: no events, no
+            voluntary yields) - what follows a re-registration is judged
   ignore    ignore_invalid_triggers; queued
   threads   list (per thread) of calls; call = {'tag', 'kind', 'args', 'script'}
             kind: ev (getattr(model, name)(tag)) | trig (model.trigger(name, tag)) | add_transition |
@@ -15,6 +20,7 @@ Case (JSON-able):
   schedule  list of thread ids (one per scheduling decision); missing tail = run the last thread on
 """
 import itertools
+import threading
 
 from . import common, threads
 from .threads import SLock, UCtx
@@ -51,11 +57,13 @@ def enc_cfg(case):
     for c in case['base']:
         out += enc_ctx(c)
     ex = [(int(m), l) for m, l in sorted(case['extras'].items(), key=lambda kv: int(kv[0])) if l]
+    ex += [(case['nmodels'] + j, l) for j, l in enumerate(case.get('dyn') or []) if l]
     out.append(len(ex))
     for m, l in ex:
         out += [m, len(l)]
         for c in l:
             out += enc_ctx(c)
+    out.append(0)       # no model is absent initially
     return out
 
 
@@ -69,8 +77,12 @@ def machine_lock_id(case):
     return None
 
 
-def call_tgt(call):
-    return call['args'][0] + 1 if call['kind'] in ('ev', 'trig') else 0
+def call_tgt(call, case=None):
+    if call['kind'] in ('ev', 'trig'):
+        return call['args'][0] + 1
+    if call['kind'] == 'dyn_ev':
+        return case['nmodels'] + call['args'][0] + 1
+    return 0
 
 
 class Run(object):
@@ -115,6 +127,13 @@ class Run(object):
                 self.machine.add_model(mod)
         for sp in self.spares:
             self.machine.add_model(sp)
+        self.dyn = [Model() for _ in (case.get('dyn') or [])]
+        for j, mod in enumerate(self.dyn):
+            ex = case['dyn'][j]
+            if ex:
+                self.machine.add_model(mod, model_context=[self.ctx(c) for c in ex])
+            else:
+                self.machine.add_model(mod)
         if not case['base']:
             # the library's default PicklableLock wraps our SLock(0) (module global `Lock` replaced)
             pl = self.machine.machine_context[0]
@@ -140,6 +159,8 @@ class Run(object):
     # ---- worker side -------------------------------------------------------------------------
     def callback(self, name, args):
         c = self.ctl
+        if c.tids.get(threading.get_ident()) in c.muted:
+            return True
         tag = args[0] if args and isinstance(args[0], int) else 0
         k = self.cbcount.get(tag, 0)
         self.cbcount[tag] = k + 1
@@ -171,13 +192,38 @@ class Run(object):
             return self.machine.set_state(args[0], self.models[args[1]])
         if kind == 'remove_model':
             return self.machine.remove_model(self.spares[args[0]])
+        if kind == 'dyn_ev':
+            return getattr(self.dyn[args[0]], args[1])(tag)
+        if kind == 'dyn_add':
+            if args[1]:
+                return self.machine.add_model(self.dyn[args[0]], model_context=[self.ctx(c) for c in args[1]])
+            return self.machine.add_model(self.dyn[args[0]])
+        if kind == 'dyn_remove':
+            return self.machine.remove_model(self.dyn[args[0]])
         raise common.MachineryError('bad call kind %r' % kind)
 
     def do_call(self, call):
         c = self.ctl
         tag = call['tag']
+        if call.get('unjudged'):
+            # an event on a model that is not registered at this point: outside the statement. Executed
+            # silently; it still waits for locks like any other thread.
+            t = c.tids.get(threading.get_ident())
+            c.muted.add(t)
+            try:
+                r = self.invoke(call)
+                self.outcome[tag] = ['ret', repr(r)]
+            except threads.Abort:
+                raise
+            except common.MachineryError:
+                raise
+            except BaseException as e:
+                self.outcome[tag] = ['exc', type(e).__name__]
+            finally:
+                c.muted.discard(t)
+            return
         t = c.point()
-        c.emit((0, t, call_tgt(call), tag))
+        c.emit((0, t, call_tgt(call, self.case), tag))
         raised = 0
         try:
             r = self.invoke(call)
@@ -227,7 +273,8 @@ class Run(object):
             names = sorted(m.get_nested_state_names()) if self.case['cls'] == 'hsm' else sorted(m.states.keys())
         except Exception as e:    # pragma: no cover
             names = ['?%s' % type(e).__name__]
-        self.final = {'states': [str(getattr(x, 'state', None)) for x in self.models], 'names': [str(n) for n in names],
+        self.final = {'states': [str(getattr(x, 'state', None)) for x in self.models + self.dyn],
+                      'dyn_registered': [x in m.models for x in self.dyn], 'names': [str(n) for n in names],
                       'events': ev, 'nmodels': len(m.models),
                       'triggers': sorted(k for k in ev)}
         # probe from another thread (this one): everything released
@@ -237,7 +284,66 @@ class Run(object):
 
     @property
     def events(self):
-        return [list(e) for e in self.ctl.log]
+        return self.augmented()[0]
+
+    @property
+    def model_schedule(self):
+        return self.augmented()[1]
+
+    def augmented(self):
+        """the observed events with the `reg` / `unreg` events of top-level dyn_add / dyn_remove calls put in,
+        and the schedule for the model.  The update of model_context_map happens inside add_model / remove_model
+        where the harness has no yield point: the body of such a call runs in the same scheduling step as its
+        last `__enter__` (one step = from one yield point to the next), so that is where the event goes and where
+        the model gets one extra step of that thread."""
+        if getattr(self, '_aug', None) is not None:
+            return self._aug
+        raw = [list(e) for e in self.ctl.log]
+        dyn_calls = {}
+        for th in self.case['threads']:
+            for call in th:
+                if call['kind'] in ('dyn_add', 'dyn_remove'):
+                    dyn_calls[call['tag']] = call
+        insert_after = {}       # raw event index -> synthesized event
+        pending = {}            # thread -> (call, index of its latest callBegin/enter event)
+        for i, e in enumerate(raw):
+            t = e[1]
+            if e[0] == 0 and e[3] in dyn_calls and e[2] == 0:
+                pending[t] = [dyn_calls[e[3]], i]
+            elif t in pending:
+                if e[0] == 1:
+                    pending[t][1] = i
+                else:
+                    call, at = pending.pop(t)
+                    insert_after[at] = self._reg_event(t, call)
+        for t, (call, at) in pending.items():
+            insert_after[at] = self._reg_event(t, call)
+        events, sched = [], []
+        idx = 0
+        for t, kind in self.ctl.steps:
+            if kind == 'e':
+                events.append(raw[idx])
+                sched.append(t)
+                if idx in insert_after:
+                    events.append(insert_after[idx])
+                    sched.append(t)
+                idx += 1
+            elif kind == 'b':
+                sched.append(t)
+        while idx < len(raw):       # events of an aborted last step
+            events.append(raw[idx])
+            idx += 1
+        self._aug = (events, sched)
+        return self._aug
+
+    def _reg_event(self, t, call):
+        m = self.case['nmodels'] + call['args'][0]
+        if call['kind'] == 'dyn_add':
+            ev = [5, t, m, len(call['args'][1])]
+            for c in call['args'][1]:
+                ev += enc_ctx(c)
+            return ev
+        return [6, t, m, 0]
 
     @property
     def schedule(self):
@@ -300,6 +406,10 @@ def thread_progs(events, n):
             progs[t].append([1, e[2], 0])
         elif k == 4:
             progs[t].append([2, e[2], 0])
+        elif k == 5:
+            progs[t].append([3, e[2], 0, e[3]] + list(e[4:]))
+        elif k == 6:
+            progs[t].append([4, e[2], 0])
     return progs
 
 
@@ -385,7 +495,7 @@ def all_calls(case):
 
 def serial_orders(case):
     """every interleaving of the threads' call sequences (thread id per outermost call)"""
-    counts = [len(th) for th in case['threads']]
+    counts = [len([c for c in th if not c.get('unjudged')]) for th in case['threads']]
     seq = []
     for t, c in enumerate(counts):
         seq += [t] * c
